@@ -5,6 +5,7 @@ import (
 	"io"
 	"sort"
 	"strconv"
+	"strings"
 	"sync"
 	"time"
 
@@ -408,5 +409,87 @@ func mpSlowPart(prop, kind string) {
 		}
 		nontrivial(kind + "|slow-part-vs-complete")
 	}
+	s.end()
+}
+
+// c07CopyStorm: many clients copy one object to keys of their own while others read it. Nothing
+// writes the source, so every read of it returns exactly what was uploaded (body and every stored
+// header, the ACL included) however the copies interleave, and every destination is the source
+// without its ACL. (Copies that overlap a write of their source or destination are D30; these do not.)
+func c07CopyStorm(kind string, clients, perClient int) {
+	s := newSess("c07", kind, SessOpts{})
+	emit("c07", "NOMODEL")
+	b := singleBucketName
+	if !isSingle(kind) {
+		s.MkBucket(b)
+	}
+	body := []byte("the source of the copy storm")
+	hdr := [][2]string{{"X-Amz-Acl", "public-read"}, {"X-Amz-Meta-Color", "blue"}, {"Content-Type", "text/x-storm"}, {"X-Amz-Storage-Class", "STANDARD"}}
+	if r := do(s.h, Req{Method: "PUT", Path: "/" + b + "/storm/src", Body: body, Header: hdr}); r.Status != 200 {
+		emit("c07", "BAD", hs(fmt.Sprintf("%s: upload of the copy source answers %d", kind, r.Status)))
+		s.end()
+		return
+	}
+	want := metaField(do(s.h, Req{Method: "HEAD", Path: "/" + b + "/storm/src"}).Header)
+	var mu sync.Mutex
+	var bad []string
+	note := func(f string, a ...interface{}) {
+		mu.Lock()
+		if len(bad) < 5 {
+			bad = append(bad, fmt.Sprintf(f, a...))
+		}
+		mu.Unlock()
+	}
+	var wg sync.WaitGroup
+	start := make(chan struct{})
+	for c := 0; c < clients; c++ {
+		wg.Add(1)
+		go func(c int) {
+			defer wg.Done()
+			<-start
+			for i := 0; i < perClient; i++ {
+				switch (c + i) % 3 {
+				case 0:
+					dst := fmt.Sprintf("storm/dst-%d-%d", c, i)
+					r := do(s.h, Req{Method: "PUT", Path: "/" + b + "/" + dst, Body: []byte{}, Header: [][2]string{{"X-Amz-Copy-Source", "/" + b + "/storm/src"}}})
+					if r.Status != 200 || r.Panic != "" {
+						note("copy to %s answers %d %s", dst, r.Status, r.Panic)
+						continue
+					}
+					g := do(s.h, Req{Method: "GET", Path: "/" + b + "/" + dst})
+					if g.Status != 200 || string(g.Body) != string(body) || g.Header.Get("X-Amz-Meta-Color") != "blue" || g.Header.Get("X-Amz-Acl") != "" {
+						note("the copy %s reads %d %q color=%q acl=%q", dst, g.Status, truncate(g.Body, 40), g.Header.Get("X-Amz-Meta-Color"), g.Header.Get("X-Amz-Acl"))
+					}
+				case 1:
+					g := do(s.h, Req{Method: "GET", Path: "/" + b + "/storm/src"})
+					if g.Status != 200 || g.Panic != "" || string(g.Body) != string(body) || metaField(g.Header) != want {
+						note("GET of the source while it is being copied answers %d %s %q with headers %s (uploaded: %s)", g.Status, g.Panic, truncate(g.Body, 40), metaField(g.Header), want)
+					}
+				default:
+					h := do(s.h, Req{Method: "HEAD", Path: "/" + b + "/storm/src"})
+					if h.Status != 200 || h.Panic != "" || metaField(h.Header) != want {
+						note("HEAD of the source while it is being copied answers %d %s with headers %s (uploaded: %s)", h.Status, h.Panic, metaField(h.Header), want)
+					}
+				}
+			}
+		}(c)
+	}
+	close(start)
+	doneCh := make(chan struct{})
+	go func() { wg.Wait(); close(doneCh) }()
+	if !waitOr(doneCh, 60*time.Second) {
+		emit("c07", "HANG", hs("the copy storm did not complete (deadlock?)"))
+		return
+	}
+	g := do(s.h, Req{Method: "GET", Path: "/" + b + "/storm/src"})
+	if g.Status != 200 || string(g.Body) != string(body) || metaField(g.Header) != want {
+		note("after the storm the source reads %d %q with headers %s (uploaded: %s)", g.Status, truncate(g.Body, 40), metaField(g.Header), want)
+	}
+	if len(bad) > 0 {
+		emit("c07", "BAD", hs(fmt.Sprintf("%s: %d clients copying one object to keys of their own while others read it: %s", kind, clients, strings.Join(bad, "; "))))
+	} else {
+		emit("c07", "GOOD", hs(fmt.Sprintf("%s: %d clients x %d copies / reads of one source: the source stays as uploaded, every copy is the source without its ACL", kind, clients, perClient)))
+	}
+	nontrivial(kind + "|copy-storm")
 	s.end()
 }
